@@ -40,6 +40,10 @@ fn kinds() -> Vec<(&'static str, XVal, Option<XFormula>, Option<u32>, Data)> {
         ("number with formula", XVal::Num("-2.5E-3".into()), Some(XFormula::Plain("1/-400".into())), None, Data::Float(-0.0025)),
         ("big number", XVal::Num("1E+100".into()), None, None, Data::Float(1e100)),
         ("style-only empty cell", XVal::None, None, Some(0), Data::Empty),
+        // cellXfs = [General, General, 14 (date), General, 2 (0.00)]: the style index selects the number format
+        ("number, second General style", XVal::Num("3".into()), None, Some(1), Data::Float(3.0)),
+        ("number, date style", XVal::Num("44197.5".into()), None, Some(2), Data::DateTime(calamine::ExcelDateTime::new(44197.5, calamine::ExcelDateTimeType::DateTime, false))),
+        ("number, 0.00 style after a General one", XVal::Num("2.25".into()), None, Some(4), Data::Float(2.25)),
         ("formula without value", XVal::None, Some(XFormula::Plain("A1".into())), None, Data::Empty),
         err("#DIV/0!", CellErrorType::Div0), err("#N/A", CellErrorType::NA), err("#NAME?", CellErrorType::Name), err("#NULL!", CellErrorType::Null),
         err("#NUM!", CellErrorType::Num), err("#REF!", CellErrorType::Ref), err("#VALUE!", CellErrorType::Value),
@@ -77,7 +81,7 @@ fn build(ch: &mut Chooser, anchor: (u32, u32), positions: &[(u32, u32)]) -> Case
         d.push(json!([r, c, name]));
     }
     let two = ch.flag("second-sheet");
-    let mut book = XBook { sheets: vec![XSheet::new("Sheet1", cells)], sst: sst(), styles: Some(XStyles { num_fmts: vec![], cell_xfs: vec![0], cell_style_xfs: vec![0] }), ..Default::default() };
+    let mut book = XBook { sheets: vec![XSheet::new("Sheet1", cells)], sst: sst(), styles: Some(XStyles { num_fmts: vec![], cell_xfs: vec![0, 0, 14, 0, 2], cell_style_xfs: vec![0], omit_general_numfmt: ch.flag("styles.general-xf-without-numFmtId") }), ..Default::default() };
     let mut grids = vec![("Sheet1".to_string(), grid)];
     if two {
         book.sheets.push(XSheet::new("Other", vec![XCell::new(2, 1, XVal::Num("7".into())), XCell::new(3, 3, XVal::SharedStr(0))]));
@@ -87,7 +91,7 @@ fn build(ch: &mut Chooser, anchor: (u32, u32), positions: &[(u32, u32)]) -> Case
         grids.push(("Other".to_string(), g));
     }
     let enc = choose_enc(ch);
-    let desc = json!({"cells": d, "second_sheet": two, "enc": format!("{enc:?}")});
+    let desc = json!({"cells": d, "second_sheet": two, "enc": format!("{enc:?}"), "general_xf_without_numFmtId": book.styles.as_ref().map(|s| s.omit_general_numfmt)});
     Case { book, enc, grids, desc }
 }
 
